@@ -1,6 +1,9 @@
 mod common;
 mod sodium;
 mod c12;
+mod c07;
+mod aead;
+mod stream;
 
 fn main() {
     let a: Vec<String> = std::env::args().collect();
@@ -14,6 +17,12 @@ fn main() {
     let mut out = common::Out::new(dir);
     match prop {
         "C12" => c12::run(&mut out, tier, seed),
+        "C07" => c07::run_c07(&mut out, tier, seed),
+        "C08" => c07::run_c08(&mut out, tier, seed),
+        "C01" => aead::run_c01(&mut out, tier, seed),
+        "C02" => aead::run_c02(&mut out, tier, seed),
+        "C17" => aead::run_c17(&mut out, tier, seed),
+        "C03" => stream::run_c03(&mut out, tier, seed),
         _ => { eprintln!("unknown property {}", prop); std::process::exit(2); }
     }
     out.finish(prop, tier, seed);
